@@ -305,6 +305,103 @@ fn run_history(st: &mut Stats, rng: &mut Rng, hist_id: u64, len: usize, replay_o
     }
 }
 
+/// Histories in which handles are DROPPED: after every operation some (sometimes all) earlier
+/// handles are released, `clean` is called often, and the environment's own invariants (both
+/// leaves present, table keys = values, children are table nodes) are walked after every step.
+/// Each operation is still compared with a fresh-environment replay.
+fn drop_heavy_job(ctx: &Ctx, job: usize, histories: u64) -> Stats {
+    let mut st = Stats::new();
+    for h in 0..histories {
+        let id = 7_000_000_000 + job as u64 * 1_000_000 + h;
+        let mut rng = Rng::stream(ctx.seed, "C13.drops", id);
+        let labels = pick_labels(&mut rng, &LABEL_POOL, 4);
+        let n = labels.len() as u32;
+        let vars = vars_of(&labels);
+        let idx = idx_fn(&labels);
+        let env: BDDEnv<usize> = BDDEnv::new();
+        // live handles with their tables; a handle that is dropped is really dropped (no snapshot keeps it)
+        let mut live: Vec<(D, Tt)> = Vec::new();
+        let mut log: Vec<String> = Vec::new();
+        let steps = 10 + rng.usize(50);
+        for step in 0..steps {
+            // the pool the generator sees is rebuilt from the live handles
+            let pool: Vec<Handle> = live.iter().map(|(d, t)| Handle { d: Rc::clone(d), table: t.clone(), snap: Rc::clone(d), born: 0 }).collect();
+            let op = if !live.is_empty() && rng.chance(1, 4) { Op::Clean(rng.usize(live.len())) } else { gen_op(&mut rng, &pool, &labels, step) };
+            drop(pool);
+            if operands(&op).iter().any(|i| *i >= live.len()) {
+                continue;
+            }
+            log.push(format!("{:?}", op));
+            st.evals += 1;
+            st.bump("drop_heavy_ops");
+            let mk_case = |log: &Vec<String>| json!({"kind": "drop-heavy", "seed": ctx.seed, "job": job, "history": h, "labels": labels_json(&labels), "log": log});
+            util::budget(50_000_000, 10_000);
+            let main = guarded(|| apply(&env, &op, &|i| Rc::clone(&live[i].0)));
+            let fresh_env: BDDEnv<usize> = BDDEnv::new();
+            let fresh = guarded(|| apply(&fresh_env, &op, &|i| build_in_env(&fresh_env, &live[i].1, &vars)));
+            match (main, fresh) {
+                (Ok((Some(r), _)), Ok((Some(fr), _))) => {
+                    if r.as_ref() != fr.as_ref() {
+                        st.violate("c13.history-independence", "C13:result:differs-from-fresh".into(), format!("drop-heavy history: {:?} gives {} here, {} in a fresh environment\n log: {:?}", op, short(&r), short(&fr), log), mk_case(&log));
+                        break;
+                    }
+                    if let Ok(t) = tt_of_bdd(&r, n, &idx) {
+                        live.push((r, t));
+                    }
+                }
+                (Ok(_), Ok(_)) => {}
+                (Err(c), Ok(_)) => {
+                    st.violate("c13.history-independence", format!("C13:{}:only-in-used-environment", c.signature()), format!("drop-heavy history: {:?} fails in the used environment ({:?}) but works in a fresh one\n log: {:?}", op, c, log), mk_case(&log));
+                    break;
+                }
+                (_, Err(_)) => {
+                    st.bump("fresh_env_panics(not judged here)");
+                    break;
+                }
+            }
+            // release handles: usually a few, sometimes everything but constants, sometimes everything
+            match rng.below(10) {
+                0 => {
+                    live.clear();
+                    log.push("drop all".into());
+                    st.bump("all_handles_dropped");
+                }
+                1 => {
+                    live.retain(|(_, t)| t.is_const());
+                    log.push("drop all non-constants".into());
+                    st.bump("all_non_constant_handles_dropped");
+                }
+                2..=5 => {
+                    if !live.is_empty() {
+                        let k = rng.usize(live.len());
+                        live.swap_remove(k);
+                        log.push(format!("drop #{}", k));
+                    }
+                }
+                _ => {}
+            }
+            // the environment's invariants at this quiescent point
+            match check_table(&env) {
+                Ok(k) => st.add("table_entries_walked", k),
+                Err(m) => {
+                    st.violate("c13.table", "C13:table:invariant-broken".into(), format!("drop-heavy history step {}: {}\n log: {:?}", step, m, log), mk_case(&log));
+                    break;
+                }
+            }
+            for (d, t) in &live {
+                if tt_of_bdd(d, n, &idx).ok().as_ref() != Some(t) {
+                    st.violate("c13.handle-stable", "C13:handle:function-changed".into(), format!("drop-heavy history: a live handle changed its function\n log: {:?}", log), mk_case(&log));
+                }
+                if let Err(m) = check_interned(&env, d) {
+                    st.violate("c13.sharing", "C13:sharing:handle-not-shared".into(), format!("drop-heavy history: {}\n log: {:?}", m, log), mk_case(&log));
+                }
+            }
+        }
+        st.bump("drop_heavy_histories");
+    }
+    st
+}
+
 fn usize_job(ctx: &Ctx, job: usize, histories: u64, maxlen: usize) -> Stats {
     let mut st = Stats::new();
     for h in 0..histories {
@@ -415,6 +512,7 @@ pub fn run(ctx: &Ctx) -> (Stats, Spec) {
         let parts = util::par_jobs(16, |job| {
             let mut s = usize_job(ctx, job, hist, maxlen);
             s.merge(shared_env_job(ctx, job, rounds));
+            s.merge(drop_heavy_job(ctx, job, hist * 4));
             s
         });
         crate::report::merge_all(parts)
@@ -424,7 +522,7 @@ pub fn run(ctx: &Ctx) -> (Stats, Spec) {
         miri_tripwire(ctx, &mut st, 150);
     }
     let spec = Spec {
-        rule: "random histories of 100..600 [quick] / 100..3000 [thorough] public operations (var, const, 7 binary connectives, ite, exists/all/exists_impl, aln/amn/exn, count_*, fp with a closure calling back into the environment, model, infer, retain, clean, order-respecting mk_choice) on one BDDEnv<usize> over 5-6 sparse labels, operands drawn from all earlier handles (old ones preferred); second family: 2-13 formula evaluations (incl. re-evaluations) sharing one BDDEnv<NamedSymbol> under a common random ordering. distinct = hash of the operation list; non-trivial = >= 30% of operands are handles older than 20 steps and the table reached >= 50 nodes (shared-env: >= 4 evaluations, >= 20 nodes).".into(),
+        rule: "random histories of 100..600 [quick] / 100..3000 [thorough] public operations (var, const, 7 binary connectives, ite, exists/all/exists_impl, aln/amn/exn, count_*, fp with a closure calling back into the environment, model, infer, retain, clean, order-respecting mk_choice) on one BDDEnv<usize> over 5-6 sparse labels, operands drawn from all earlier handles (old ones preferred); third family: short histories in which handles are DROPPED after operations (a few, all non-constants, or all), `clean` is called often, and the environment's invariants (both leaves present, keys = values, children are table nodes) are walked after every step; second family: 2-13 formula evaluations (incl. re-evaluations) sharing one BDDEnv<NamedSymbol> under a common random ordering. distinct = hash of the operation list; non-trivial = >= 30% of operands are handles older than 20 steps and the table reached >= 50 nodes (shared-env: >= 4 evaluations, >= 20 nodes).".into(),
         assumptions: vec![
             "operands from other environments are never mixed in; formulas sharing an environment share one variable numbering".into(),
             "the unique table is inspected through the public `nodes` field at quiescent points; duplicates() is not used as an oracle".into(),
@@ -435,6 +533,8 @@ pub fn run(ctx: &Ctx) -> (Stats, Spec) {
             ("op_Fp".into(), 50, "fp never exercised".into()),
             ("op_MkChoice".into(), 20, "mk_choice never exercised".into()),
             ("re_evaluations".into(), 50, "no re-evaluations in shared environments".into()),
+            ("drop_heavy_histories".into(), 500, "histories with dropped handles hardly exercised".into()),
+            ("all_handles_dropped".into(), 100, "dropping every handle never exercised".into()),
             ("nodes_checked_for_sharing".into(), 10_000, "sharing walker saw too few nodes".into()),
             ("distinct_nontrivial".into(), 50, "too few non-trivial histories".into()),
         ],
@@ -540,6 +640,15 @@ pub fn replay(_ctx: &Ctx, _monitor: &str, case: &Value, st: &mut Stats) {
         if let Err(m) = check_table(&env) {
             st.violate("c13.table", "C13:shared:table-invariant-broken".into(), m, case.clone());
         }
+        return;
+    }
+    if case.get("kind").and_then(|k| k.as_str()) == Some("drop-heavy") {
+        let job = case.get("job").and_then(|j| j.as_u64()).unwrap_or(0) as usize;
+        let h = case.get("history").and_then(|j| j.as_u64()).unwrap_or(0);
+        let mut c2 = _ctx.clone();
+        c2.seed = case.get("seed").and_then(|j| j.as_u64()).unwrap_or(_ctx.seed);
+        // histories are independent streams: re-run the recorded one (and its predecessors, cheaply)
+        with_stderr_gagged(|| st.merge(drop_heavy_job(&c2, job, h + 1)));
         return;
     }
     let labels = parse_labels(case, "labels");
